@@ -30,18 +30,32 @@ P6 = [(None, 'm'), (None, 's'), ('ir', 's'), ('tr', 't2'), ('ar', 's'),
 P8 = P6 + [('ir', 't2'), ('ar', 't3')]
 PREP = [(None, 'm'), ('ar', 's'), ('ir', 't2'), (None, 's')]
 FALSY = {'z': 0, 'zf': 0.0, 'F': False}
+# audit widening ---------------------------------------------------------
+# rates entries beyond RE: explicit zeros (int / float), an int lag, lag
+# lists of length 1 and 3, lag lists with a zero first / last / everywhere,
+# int lag lists; entries at position j > 0 are scaled by 2**j so that two
+# lagged parameters never share a lag time by construction
+RW = [None, 'ir', 0.25, 0, 0.0, 1, 0.75, [0.75], [0, 0.5], [0.5, 0], [0, 0],
+      [0.25, 0.5, 0.75], [1, 2]]
+ANN3 = [None, 'kr', 'ar']
+P4 = [(None, 's'), ('ir', 't2'), ('kr', 't2'), ('ar', 's')]
+P7 = P6 + [('kr', 't3')]
+ENTRIES = ('ctor', 'ctor-pos', 'decorator')
 
 
 # --------------------------------------------------------------------------
 # Case construction (plain data)
 # --------------------------------------------------------------------------
 
-def mk_fn(fi, names, combos, rates=None, prepend=0, wraps=None):
+def mk_fn(fi, names, combos, rates=None, prepend=0, wraps=None,
+          prepend_vals=None):
     """combos: [(ann, default kind)] per parameter; default kinds: 'm' no
     default (turned into '=None' when Python syntax forbids it), 'n' =None,
     's' scalar, 't<k>' tuple of k, 'z'/'zf'/'F' the explicit falsy defaults
-    0 / 0.0 / False, 'tz' the tuple (0, x).  Other values are tagged by
-    function/position."""
+    0 / 0.0 / False, 'tz' the tuple (0, x), 'i' a non-zero int, 'T' True,
+    'ng' a negative number, 'ti<k>' a tuple of k ints, 'tm3' the tuple
+    (x, -y, 0).  Other values are tagged by function/position.
+    prepend_vals: explicit prepended values (default: the ints 900+...)."""
     params = []
     all_m = True
     for i, (ann, dk) in enumerate(combos):
@@ -58,11 +72,25 @@ def mk_fn(fi, names, combos, rates=None, prepend=0, wraps=None):
             d = FALSY[dk]
         elif dk == 'tz':
             d = [0, base + 0.5]
+        elif dk == 'i':
+            d = base + 3
+        elif dk == 'T':
+            d = True
+        elif dk == 'ng':
+            d = -(base + 0.5)
+        elif dk.startswith('ti'):
+            d = [base + 1 + j for j in range(int(dk[2:]))]
+        elif dk == 'tm3':
+            d = [float(base + 1), -float(base + 2), 0]
         else:
             d = [float(base + 1 + j) for j in range(int(dk[1:]))]
         params.append([names[i], ann, d])
-    return {'params': params, 'rates': rates, 'prepend': prepend,
-            'tag': 100 * (fi + 1), 'wraps': wraps or []}
+    fn = {'params': params, 'rates': rates, 'prepend': prepend,
+          'tag': 100 * (fi + 1), 'wraps': wraps or []}
+    if prepend_vals is not None:
+        assert len(prepend_vals) == prepend
+        fn['prepend_vals'] = list(prepend_vals)
+    return fn
 
 
 def default_call(fn):
@@ -80,9 +108,21 @@ def default_call(fn):
     return {'pos': pos, 'kw': kw}
 
 
-def mk_case(fn, variants=None, specs=None, call='default'):
-    return {'name': DEFNAME, 'fn': fn, 'variants': variants, 'specs': specs,
+def mk_case(fn, variants=None, specs=None, call='default', entry=None,
+            meta_extra=False):
+    """entry: how the definition is made - None/'ctor' SynthDef(name, f,
+    keyword options), 'ctor-pos' the options given positionally, 'decorator'
+    @synthdef / @synthdef(options) on a function named like the definition.
+    meta_extra: the metadata dictionary has another key besides / instead of
+    'specs'."""
+    case = {'name': DEFNAME, 'fn': fn, 'variants': variants, 'specs': specs,
             'call': default_call(fn) if call == 'default' else call}
+    if entry not in (None, 'ctor'):
+        assert entry in ENTRIES
+        case['entry'] = entry
+    if meta_extra:
+        case['meta_extra'] = True
+    return case
 
 
 def rates_all(n):
@@ -219,25 +259,52 @@ def variant_options(case):
     mixed = ['x', [[names[0], 4102.0], ['zz', 4103.0]]]
     opts += [[unknown], [long_], [over], [mixed], [unknown, good],
              [good, unknown], [long_, good], [good, over]]
+    # audit widening: falsy override values (int 0 on the first, 0.0 on the
+    # last control), an int value, a variant without overrides (= the
+    # defaults), the longest name that every reader accepts (31 characters
+    # with the definition name), a list shorter than an array of >= 3 slots
+    opts.append([['z', [[names[0], 0]]]])
+    opts.append([['z', [[names[-1], 0.0]]], ['i', [[names[0], 4105]]]])
+    opts.append([['e', []]])
+    opts.append([['e', []], good])
+    opts.append([['M' * (31 - len(case['name']) - 1),
+                  [[names[0], 4104.0]]]])
+    for nm in names:
+        if size[nm] >= 3:
+            opts.append([['s', [[nm, [4110.0 + j
+                                      for j in range(size[nm] - 1)]]] +
+                          ([[names[-1], 4120.0]] if names[-1] != nm
+                           else [])]])
     for o in opts:
         yield o
 
 
 def fam_variants():
+    """mode: 'plain'; 'pre' one prepended parameter in front; 'specs' the
+    missing defaults come from metadata spec defaults (the variant blocks
+    repeat them)."""
     def prefixes():
         for n in (1, 2):
-            for combo in itertools.product(P6, repeat=n):
+            for combo in itertools.product(P7, repeat=n):
                 for rates in (None, [0.25]):
                     for wrap in (0, 1):
-                        yield list(combo), rates, wrap
+                        for mode in ('plain', 'pre', 'specs'):
+                            yield list(combo), rates, wrap, mode
 
     def gen(shard, of):
-        for combo, rates, wrap in sharded(prefixes(), shard, of):
+        for combo, rates, wrap, mode in sharded(prefixes(), shard, of):
             wraps = [{'pos': 1, 'fn': mk_fn(1, WRAP_NAMES[0],
                                             [('ir', 't2')])}] if wrap else []
-            fn = mk_fn(0, OUTER_NAMES, combo, rates, wraps=wraps)
-            for v in variant_options(mk_case(fn)):
-                yield mk_case(fn, variants=v)
+            pre = 1 if mode == 'pre' else 0
+            fn = mk_fn(0, OUTER_NAMES, [(None, 'm')] * pre + combo, rates,
+                       prepend=pre, wraps=wraps)
+            specs = None
+            if mode == 'specs':
+                specs = {p[0]: 2048.25 + 16 * j
+                         for j, p in enumerate(fn['params']) if p[2] == 'm'}
+                specs['zz'] = 3000.25
+            for v in variant_options(mk_case(fn, specs=specs)):
+                yield mk_case(fn, variants=v, specs=specs)
     return gen
 
 
@@ -310,6 +377,15 @@ def fam_call():
                             'kw': [[k, 70 + j] for j, k in enumerate(kw)]}
                     if call != default_call(fn):    # that one is in the
                         yield mk_case(fn, call=call)  # sig/prepend families
+                    # audit widening: falsy numbers and bus-mapping strings
+                    # are argument values like any other
+                    if npos or kw:
+                        fpos = [0, 'c1', 0.0]
+                        fkw = [0, 'a2']
+                        yield mk_case(fn, call={
+                            'pos': [fpos[j % 3] for j in range(npos)],
+                            'kw': [[k, fkw[j % 2]]
+                                   for j, k in enumerate(kw)]})
     return gen
 
 
@@ -333,12 +409,234 @@ def big_cases(n):
     for j in range(n):
         yield mk_case(mk_fn(0, names, [(None, 't2')] * n,
                             [None] * j + [[0.25, 0.5]]))
+    # audit widening: variants, prepended parameters, spec defaults and a
+    # different lag time for every parameter on a large definition
+    combo = [(ANN[i % 5], dks[i % 4]) for i in range(n)]
+    alt = [0.25 if i % 2 else None for i in range(n)]
+    yield mk_case(mk_fn(0, names, combo, alt), variants=[
+        ['v', [[names[-1], 4096.0], [names[0], 4097.0]]],
+        ['w', [[names[n // 2], 0]]]])
+    yield mk_case(mk_fn(0, names, [(None, 'm')] * 2 + combo[2:], alt,
+                        prepend=2),
+                  variants=[['v', [[names[-1], 4096.0]]]],
+                  specs={nm: 2048.25 + j for j, nm in enumerate(names)})
+    yield mk_case(mk_fn(0, names, [S] * n,
+                        [0.125 * (i + 1) for i in range(n)]))
+    yield mk_case(mk_fn(0, names, [(None, 't2')] * n,
+                        [[0.125 * (2 * i + 1), 0.125 * (2 * i + 2)]
+                         for i in range(n)]), entry='decorator')
 
 
 def fam_big(ns):
     def gen(shard, of):
         for c in sharded((c for n in ns for c in big_cases(n)), shard, of):
             yield c
+    return gen
+
+
+# ---- audit widening: families ---------------------------------------------
+
+def _scale(e, j):
+    if j == 0 or e is None or isinstance(e, str):
+        return e
+    if isinstance(e, list):
+        return [x * 2 ** j for x in e]
+    return e * 2 ** j
+
+
+RW3 = [None, 0, 1, [0.75], [0, 0.5], [0.25, 0.5, 0.75]]
+
+
+def rates_wide(n, alphabet=None):
+    """not given; every list of length 1..n over RW (or the given alphabet);
+    lists with one or two entries more than there are parameters."""
+    alphabet = RW if alphabet is None else alphabet
+    yield None
+    for L in range(1, n + 1):
+        for r in itertools.product(alphabet, repeat=L):
+            yield [_scale(e, j) for j, e in enumerate(r)]
+    for h in itertools.product([None, 0.75, 'ir'], repeat=n):
+        head = [_scale(e, j) for j, e in enumerate(h)]
+        for x in (None, 'ir', 0.5, [0.25, 0.5]):
+            yield head + [x]
+        for xs in (['ir', 'ir'], [0.5, None]):
+            yield head + xs
+
+
+def fam_sigw(ns, alphabet=None):
+    per = [(a, k) for a in ANN3 for k in ('s', 't2', 't3')]
+
+    def prefixes():
+        for n in ns:
+            for combo in itertools.product(per, repeat=n):
+                yield n, list(combo)
+
+    def gen(shard, of):
+        for n, combo in sharded(prefixes(), shard, of):
+            for rates in rates_wide(n, alphabet):
+                yield mk_case(mk_fn(0, OUTER_NAMES, combo, rates))
+    return gen
+
+
+def fam_defaults():
+    """default values that are not floats: non-zero ints, True, negative
+    numbers, tuples of ints, a tuple with a negative and a zero; alone and
+    with a spec default for every name (an explicit default always wins)."""
+    per = [(a, k) for a in ANN
+           for k in ('m', 'i', 'T', 'ng', 'ti2', 'tm3')]
+
+    def prefixes():
+        for n in (1, 2):
+            for combo in itertools.product(per, repeat=n):
+                yield n, list(combo)
+
+    def gen(shard, of):
+        for n, combo in sharded(prefixes(), shard, of):
+            for rates in (None, [0.25], ['ir'], [None, 'ar'][:n],
+                          [[0.25, 0.5]]):
+                for sp in (0, 1):
+                    specs = {OUTER_NAMES[j]: 2048.25 + 16 * j
+                             for j in range(n)} if sp else None
+                    yield mk_case(mk_fn(0, OUTER_NAMES, combo, rates),
+                                  specs=specs)
+    return gen
+
+
+def wide_inners():
+    """inner functions of fam_wrapw: (parameter kinds, rates, prepend count,
+    explicit prepended values | None, prepended value is a signal)"""
+    out = [([], None, 0, None, False),                    # no parameters
+           ([(None, 'm')], None, 1, None, False),         # all prepended
+           ([('ar', 's')], None, 1, [0], False),
+           ([(None, 'm')], None, 1, None, True)]          # signal, no control
+    for c in P4:
+        out.append(([(None, 'm'), c], None, 1, None, True))
+    for pv in ([0], [None], [False]):
+        for c in P4[:2]:
+            out.append(([(None, 'm'), c], None, 1, pv, False))
+    for c in P4:
+        for r in (['ar'], ['kr'], ['tr'], [0.5], [[0.25, 0.5]]):
+            out.append(([c], r, 0, None, False))
+    out.append(([(None, 's'), ('kr', 't2')], [0.5, [0.25, 1.0]], 0, None,
+                False))
+    return out
+
+
+def fam_wrapw():
+    """wrap: sub-functions without parameters / without control parameters,
+    prepended signals and falsy prepended values, rates of the sub-function,
+    rates of the enclosing function, a second sub-function after the first."""
+    def prefixes():
+        for no in (1, 2):
+            for oc in itertools.product(P4, repeat=no):
+                for orates in (None, [0.25], ['tr'] if no == 1
+                               else [None, 'tr']):
+                    yield list(oc), orates
+
+    def gen(shard, of):
+        inners = wide_inners()
+        for oc, orates in sharded(prefixes(), shard, of):
+            for combo, ir, ipre, pv, sig in inners:
+                for pos in (0, 1):
+                    for sib in (0, 1):
+                        names = ('q' if ipre else '') + WRAP_NAMES[0]
+                        inner = mk_fn(1, names, combo, ir, prepend=ipre,
+                                      prepend_vals=pv)
+                        w = {'pos': pos, 'fn': inner}
+                        if sig:
+                            w['pre_sig'] = True
+                        wraps = [w]
+                        if sib:
+                            wraps.append({'pos': 1, 'fn': mk_fn(
+                                2, WRAP_NAMES[1], [('ir', 's')])})
+                        yield mk_case(mk_fn(0, OUTER_NAMES, oc, orates,
+                                            wraps=wraps))
+    return gen
+
+
+def fam_wrap3(P, slice_of=1, slice_ix=0):
+    """three sub-functions with one parameter each: a chain of nested wraps,
+    three siblings, a nested pair next to a sibling."""
+    def prefixes():
+        i = 0
+        for no in (0, 1):
+            for oc in itertools.product(P, repeat=no):
+                for cs in itertools.product(P, repeat=3):
+                    if i % slice_of == slice_ix:
+                        yield list(oc), cs
+                    i += 1
+
+    def f(i, c, wraps=None):
+        return mk_fn(i, WRAP_NAMES[i - 1], [c], wraps=wraps)
+
+    def gen(shard, of):
+        for oc, (c1, c2, c3) in sharded(prefixes(), shard, of):
+            for p1, p2, p3 in itertools.product((0, 1), repeat=3):
+                yield mk_case(mk_fn(0, OUTER_NAMES, oc, wraps=[
+                    {'pos': p1, 'fn': f(1, c1, [
+                        {'pos': p2, 'fn': f(2, c2, [
+                            {'pos': p3, 'fn': f(3, c3)}])}])}]))
+            for ps in ((0, 0, 0), (0, 0, 1), (0, 1, 1), (1, 1, 1)):
+                yield mk_case(mk_fn(0, OUTER_NAMES, oc, wraps=[
+                    {'pos': p, 'fn': f(i + 1, c)}
+                    for i, (p, c) in enumerate(zip(ps, (c1, c2, c3)))]))
+            for p1, p2, p3 in ((0, 0, 0), (0, 1, 1), (1, 0, 1), (1, 1, 1)):
+                yield mk_case(mk_fn(0, OUTER_NAMES, oc, wraps=[
+                    {'pos': p1, 'fn': f(1, c1, [{'pos': p2,
+                                                 'fn': f(2, c2)}])},
+                    {'pos': p3, 'fn': f(3, c3)}]))
+    return gen
+
+
+def fam_entry():
+    """the other ways to make a definition: options given positionally to
+    the constructor, the synthdef decorator with and without options."""
+    def prefixes():
+        for n in (0, 1, 2):
+            for combo in itertools.product(P6, repeat=n):
+                ropts = [None] + ([[0.25], ['ir']] if n >= 1 else []) + \
+                    ([[None, 'ir']] if n >= 2 else [])
+                for rates in ropts:
+                    for pre in (0, 1):
+                        yield list(combo), rates, pre
+
+    def gen(shard, of):
+        for combo, rates, pre in sharded(prefixes(), shard, of):
+            fn = mk_fn(0, OUTER_NAMES, [(None, 'm')] * pre + combo, rates,
+                       prepend=pre)
+            ctl = [p[0] for p in fn['params'][pre:]]
+            for var in ((0, 1) if ctl else (0,)):
+                variants = [['v', [[ctl[0], 4096.0]]]] if var else None
+                for sp in (0, 1):
+                    specs = {nm: 2048.25 + 16 * j
+                             for j, nm in enumerate(ctl + ['zz'])} \
+                        if sp else None
+                    for entry in ('ctor-pos', 'decorator'):
+                        yield mk_case(fn, variants=variants, specs=specs,
+                                      entry=entry)
+    return gen
+
+
+def fam_metaw():
+    """metadata with another key besides 'specs', without a 'specs' key, with
+    an empty 'specs'; spec defaults of lagged / re-rated parameters."""
+    per = [(a, k) for a in ANN for k in ('m', 'n', 'z')]
+
+    def prefixes():
+        for n in (1, 2):
+            for combo in itertools.product(per, repeat=n):
+                yield n, list(combo)
+
+    def gen(shard, of):
+        for n, combo in sharded(prefixes(), shard, of):
+            for rates in (None, [0.5], ['ir']):
+                fn = mk_fn(0, OUTER_NAMES, combo, rates)
+                full = {OUTER_NAMES[j]: 2048.25 + 16 * j for j in range(n)}
+                yield mk_case(fn, specs=full, meta_extra=True)
+                yield mk_case(fn, specs=None, meta_extra=True)
+                yield mk_case(fn, specs={})
+                if rates is not None:
+                    yield mk_case(fn, specs=full)
     return gen
 
 
@@ -368,14 +666,38 @@ FAMILIES = {
     'parametric 16/17 parameters': lambda: [fam_big((16, 17))],
     'parametric 15..40 parameters':
         lambda: [fam_big((15, 16, 17, 18, 31, 32, 33, 40))],
+    # audit widening
+    'parametric 5/8/12 parameters': lambda: [fam_big((5, 8, 12))],
+    'sig<=2 wide rates entries (zeros, ints, lag lists of 1/3, excess)':
+        lambda: [fam_sigw((0, 1, 2))],
+    'sig3 wide rates entries (6 entries)': lambda: [fam_sigw((3,), RW3)],
+    'sig<=2 non-float defaults (int, True, negative, int tuples)':
+        lambda: [fam_defaults()],
+    'wrap: empty/all-prepended sub-functions, prepended signals, rates':
+        lambda: [fam_wrapw()],
+    'wrap three sub-functions (6 kinds)': lambda: [fam_wrap3(P6)],
+    'entry points: positional options, decorator': lambda: [fam_entry()],
+    'metadata without/with empty specs, extra keys': lambda: [fam_metaw()],
 }
+for _k in range(8):
+    FAMILIES[f'wrap three sub-functions (6 kinds), slice {_k}/8'] = \
+        (lambda k: lambda: [fam_wrap3(P6, 8, k)])(_k)
 QUICK = [('sig<=2 full alphabets, every rates list', 64),
          ('sig3 reduced defaults, <=1 rates entry', 64),
          ('prepend 1-2 of <=3 parameters', 32),
          ('wrap one sub-function (6 kinds/param)', 64),
          ('wrap two sub-functions, sibling/nested', 16),
          ('variants', 16), ('metadata spec defaults', 64),
-         ('call mapping', 8), ('parametric 16/17 parameters', 16)]
+         ('call mapping', 8), ('parametric 16/17 parameters', 16),
+         ('sig<=2 wide rates entries (zeros, ints, lag lists of 1/3, excess)',
+          64),
+         ('sig<=2 non-float defaults (int, True, negative, int tuples)', 32),
+         ('wrap: empty/all-prepended sub-functions, prepended signals, rates',
+          32),
+         ('entry points: positional options, decorator', 16),
+         ('metadata without/with empty specs, extra keys', 16),
+         ('parametric 5/8/12 parameters', 8)]
+# + one seed-selected eighth of 'wrap three sub-functions' (see main)
 THOROUGH = [('sig<=2 full alphabets + falsy defaults, every rates list', 64),
             ('sig3 every rates list', 512),      # contains the quick sig3
             ('sig4 scalar/pair defaults, <=1 rates entry', 512),
@@ -383,7 +705,18 @@ THOROUGH = [('sig<=2 full alphabets + falsy defaults, every rates list', 64),
             ('wrap one sub-function (8 kinds/param)', 128),
             ('wrap two sub-functions, sibling/nested (8 kinds)', 32),
             ('variants', 16), ('metadata spec defaults', 64),
-            ('call mapping', 8), ('parametric 15..40 parameters', 32)]
+            ('call mapping', 8), ('parametric 15..40 parameters', 32),
+            ('sig<=2 wide rates entries (zeros, ints, lag lists of 1/3, '
+             'excess)', 64),
+            ('sig3 wide rates entries (6 entries)', 256),
+            ('sig<=2 non-float defaults (int, True, negative, int tuples)',
+             32),
+            ('wrap: empty/all-prepended sub-functions, prepended signals, '
+             'rates', 32),
+            ('wrap three sub-functions (6 kinds)', 64),
+            ('entry points: positional options, decorator', 16),
+            ('metadata without/with empty specs, extra keys', 16),
+            ('parametric 5/8/12 parameters', 8)]
 
 
 # --------------------------------------------------------------------------
@@ -394,11 +727,53 @@ def _lit(x):
     return repr(x)
 
 
+def prep_vals(f, i):
+    """the values prepended to function number i of a case"""
+    pv = f.get('prepend_vals')
+    if pv is not None:
+        return list(pv)
+    return [900 + 10 * i + q for q in range(f.get('prepend', 0))]
+
+
+def _seen_norm(v):
+    # ints and floats as they are; None / bools / anything else by repr so
+    # that 0, 0.0 and False are three different observations
+    if isinstance(v, bool) or not isinstance(v, (int, float)):
+        return repr(v)
+    return [type(v).__name__, v]
+
+
 def gen_source(case):
     """Python source of all graph functions of the case (g0 = the function
-    given to SynthDef) plus the construction statement."""
+    given to SynthDef; it is called like the definition when the synthdef
+    decorator is the entry point) plus the construction statement."""
     fns = lr.functions_of(case['fn'])
     index = {id(f): i for i, f in enumerate(fns)}
+    presig = {id(w['fn']) for f in fns for w in f.get('wraps') or []
+              if w.get('pre_sig')}
+    entry = case.get('entry') or 'ctor'
+    f0 = case['fn']
+    opt = {}
+    if f0.get('rates') is not None:
+        opt['rates'] = _lit(f0['rates'])
+    if f0.get('prepend', 0):
+        opt['prepend'] = _lit(prep_vals(f0, 0))
+    if case.get('variants') is not None:
+        vs = ', '.join(
+            f'{vn!r}: {{' + ', '.join(f'{cn!r}: {_lit(v)}' for cn, v in pairs)
+            + '}' for vn, pairs in case['variants'])
+        opt['variants'] = '{' + vs + '}'
+    if case.get('specs') is not None or case.get('meta_extra'):
+        items = []
+        if case.get('specs') is not None:
+            sp = ', '.join(f'{k!r}: ControlSpec(0, 8192, default={_lit(v)})'
+                           for k, v in sorted(case['specs'].items()))
+            items.append("'specs': {" + sp + '}')
+        if case.get('meta_extra'):
+            items.append("'other': 1")
+        opt['metadata'] = '{' + ', '.join(items) + '}'
+    order = ('rates', 'prepend', 'variants', 'metadata')
+    kwtext = ', '.join(f'{k}={opt[k]}' for k in order if k in opt)
     lines = []
 
     def emit(f):
@@ -416,22 +791,30 @@ def gen_source(case):
                 s += ' = ' + (_lit(tuple(d)) if isinstance(d, list)
                               else _lit(d))
             sig.append(s)
-        lines.append(f'def g{i}({", ".join(sig)}):')
+        if i == 0 and entry == 'decorator':
+            lines.append('@synthdef' + (f'({kwtext})' if kwtext else ''))
+            lines.append(f'def {case["name"]}({", ".join(sig)}):')
+        else:
+            lines.append(f'def g{i}({", ".join(sig)}):')
         k = f.get('prepend', 0)
         body = []
         for j, (name, _, _) in enumerate(f['params']):
             if j < k:
-                body.append(f'_seen.append(({i}, {j}, {name}))')
+                if id(f) in presig:     # a prepended signal goes to a bus
+                    body.append(f'_sink({f["tag"] + j}, {name})')
+                else:
+                    body.append(f'_seen.append(({i}, {j}, {name}))')
 
         def wrapcall(w):
             g = w['fn']
             args = [f'g{index[id(g)]}']
             if g.get('rates') is not None:
                 args.append(f'rates={_lit(g["rates"])}')
-            if g.get('prepend', 0):
-                args.append('prepend=' + _lit(
-                    [900 + 10 * index[id(g)] + q
-                     for q in range(g['prepend'])]))
+            if w.get('pre_sig'):
+                args.append(
+                    f'prepend=[{f["params"][f.get("prepend", 0)][0]}]')
+            elif g.get('prepend', 0):
+                args.append('prepend=' + _lit(prep_vals(g, index[id(g)])))
             return f'SynthDef.wrap({", ".join(args)})'
         for w in f.get('wraps') or []:
             if w['pos'] == 0:
@@ -447,30 +830,24 @@ def gen_source(case):
         lines.extend('    ' + b for b in body)
         lines.append('')
     emit(case['fn'])
-    f0 = case['fn']
-    args = [repr(case['name']), 'g0']
-    if f0.get('rates') is not None:
-        args.append(f'rates={_lit(f0["rates"])}')
-    if f0.get('prepend', 0):
-        args.append('prepend=' + _lit([900 + q
-                                       for q in range(f0['prepend'])]))
-    if case.get('variants') is not None:
-        vs = ', '.join(
-            f'{vn!r}: {{' + ', '.join(f'{cn!r}: {_lit(v)}' for cn, v in pairs)
-            + '}' for vn, pairs in case['variants'])
-        args.append('variants={' + vs + '}')
-    if case.get('specs') is not None:
-        sp = ', '.join(f'{k!r}: ControlSpec(0, 8192, default={_lit(v)})'
-                       for k, v in sorted(case['specs'].items()))
-        args.append("metadata={'specs': {" + sp + '}}')
-    lines.append(f'sd = SynthDef({", ".join(args)})')
+    if entry == 'decorator':
+        lines.append(f'sd = {case["name"]}')
+    elif entry == 'ctor-pos':
+        args = [repr(case['name']), 'g0'] + [opt.get(k, 'None')
+                                             for k in order]
+        while args[-1] == 'None':
+            args.pop()
+        lines.append(f'sd = SynthDef({", ".join(args)})')
+    else:
+        args = [repr(case['name']), 'g0'] + ([kwtext] if kwtext else [])
+        lines.append(f'sd = SynthDef({", ".join(args)})')
     return '\n'.join(lines) + '\n'
 
 
 PRELUDE = '''import sc3
 sc3.init('nrt')
 from sc3.base.main import main
-from sc3.synth.synthdef import SynthDef
+from sc3.synth.synthdef import SynthDef, synthdef
 from sc3.synth.spec import ControlSpec
 from sc3.synth.ugens.inout import Out
 _seen = []
@@ -500,9 +877,10 @@ def _where(e):
 def run_case(case):
     """Execute the case on the real library. -> observation dict."""
     from sc3.base.main import main
-    from sc3.synth.synthdef import SynthDef
+    from sc3.synth.synthdef import SynthDef, synthdef
     from sc3.synth.spec import ControlSpec
     from sc3.synth.ugens.inout import Out
+    from sc3.base.systemactions import ServerBoot
     seen = []
 
     shapes = []
@@ -517,9 +895,12 @@ def run_case(case):
             Out.kr(bus, x)
 
     scope = {'SynthDef': SynthDef, 'ControlSpec': ControlSpec, '_seen': seen,
-             '_sink': sink}
+             '_sink': sink, 'synthdef': synthdef}
     obs = {}
     src = gen_source(case)
+    # the decorator registers a boot action per definition: the registry is
+    # put back so that cases do not pile up in the worker
+    boot = {k: dict(v) for k, v in ServerBoot._servers.items()}
     try:
         exec(compile(src, '<c04 case>', 'exec'), scope)
         sd = scope['sd']
@@ -530,9 +911,10 @@ def run_case(case):
         obs['error'] = repr(e)[:300] + (
             ' <- ' + repr(e.__cause__)[:200] if e.__cause__ else '')
         return obs
+    finally:
+        ServerBoot._servers = boot
     obs['bytes'] = data
-    obs['seen'] = [[i, j, v if isinstance(v, (int, float)) else repr(v)]
-                   for i, j, v in seen]
+    obs['seen'] = [[i, j, _seen_norm(v)] for i, j, v in seen]
     obs['shapes'] = sorted(shapes)
     call = case.get('call')
     if call is not None:
@@ -575,6 +957,12 @@ def check_case(case):
         if unusable:
             # refusing an unusable variant is an acceptable answer
             return [], nt, ['refused', obs['raised']], None
+        if lr.excess_rates(case):
+            # so is refusing rates entries that belong to no parameter
+            return [], nt, ['refused-excess-rates', obs['raised']], None
+        if lr.overlong_lag_list(case):
+            # ... or a lag list with more times than the parameter has slots
+            return [], nt, ['refused-overlong-lag-list', obs['raised']], None
         kind = 'build-raises-' + obs['raised']
         return [(kind, 'a compiled definition', obs['error'],
                  'well-formed signature rejected')], nt, kind, None
@@ -613,10 +1001,15 @@ def check_case(case):
                     obs['shapes'], '[bus, is list, length] per parameter'))
     # prepended values reach the function unchanged
     want_seen = []
-    for i, f in enumerate(lr.functions_of(case['fn'])):
-        for q in range(f.get('prepend', 0)):
-            want_seen.append([i, q, 900 + 10 * i + q])
-    if sorted(obs['seen']) != sorted(want_seen):
+    fns_ = lr.functions_of(case['fn'])
+    presig = {id(w['fn']) for f in fns_ for w in f.get('wraps') or []
+              if w.get('pre_sig')}
+    for i, f in enumerate(fns_):
+        if id(f) in presig:
+            continue          # checked as wiring of the bus it is sent to
+        for q, v in enumerate(prep_vals(f, i)):
+            want_seen.append([i, q, _seen_norm(v)])
+    if sorted(obs['seen'], key=repr) != sorted(want_seen, key=repr):
         dis.append(('prepended-values-differ', want_seen, obs['seen'],
                     '[function, position, value received]'))
     # calling the definition
@@ -711,12 +1104,22 @@ def main(ctx):
         'parameters, order of per-function slot blocks under wrap, lag of '
         'slots beyond a shorter lag list, a lag list on a one-slot parameter '
         '(skipped), order of name table / variants / call pairs, number of '
-        'control units per group, refusal or omission of unusable variants',
+        'control units per group, refusal or omission of unusable variants, '
+        'refusal of a rates list longer than the parameter list (if built, '
+        'the surplus entries must not disturb the parameters), refusal of a '
+        'lag list longer than the parameter has slots (if built, slot j '
+        'carries the j-th time)',
         'all defaults, lags and call values are float32-exact; compared '
         'with ==',
         'the body chooses Out.ar/Out.kr from the .rate of what it received; '
         'the Out rate is then compared with the reference group']
-    fams = QUICK if ctx.tier == 'quick' else THOROUGH
+    fams = list(QUICK if ctx.tier == 'quick' else THOROUGH)
+    if ctx.tier == 'quick':
+        # the seed only selects which eighth of the next bound (three
+        # wrapped sub-functions) is explored on top of the completed bounds
+        k = core.pick_slice(ctx.seed, 8)
+        fams.append((f'wrap three sub-functions (6 kinds), slice {k}/8', 16))
+        ctx.extra['seed_selected_slice'] = f'wrap three sub-functions {k}/8'
     for name, of in fams:
         progenum.run(ctx, MODNAME, 'work',
                      [{'family': name, 'shard': i, 'of': of}
@@ -728,6 +1131,18 @@ def main(ctx):
     ctx.extra['alphabets'] = {
         'annotation': ['none', 'ir', 'tr', 'ar', 'kr'],
         'default': ['missing', '=None', 'scalar', 'tuple of 1/2/3',
-                    'explicit falsy: 0, 0.0, False, (0, x)'],
+                    'explicit falsy: 0, 0.0, False, (0, x)',
+                    'non-zero int, True, negative, tuple of ints, '
+                    '(x, -y, 0)'],
         'rates entry': ['absent', None, 'ir', 'tr', 'ar', 'kr', 0.25,
-                        [0.25, 0.5]]}
+                        [0.25, 0.5], 'wide: 0, 0.0, 1, 0.75, [0.75], '
+                        '[0, 0.5], [0.5, 0], [0, 0], [0.25, 0.5, 0.75], '
+                        '[1, 2], scaled by 2**position; 1-2 surplus entries'],
+        'prepended value': ['int', '0', 'None', 'False',
+                            'control signal of the enclosing function'],
+        'entry point': ['SynthDef(name, f, keyword options)',
+                        'SynthDef(name, f, positional options)',
+                        '@synthdef', '@synthdef(options)'],
+        'variant value': ['float', 'list (full, shorter)', '0', '0.0', 'int',
+                          'no overrides', '31-character name', 'unusable'],
+        'call value': ['number', '0', '0.0', 'bus-mapping string']}
